@@ -26,7 +26,6 @@ import (
 	"testing"
 
 	"github.com/ipfs/go-cid"
-	"github.com/klauspost/compress/zstd"
 	"github.com/rpcpool/yellowstone-faithful/ipld/ipldbindcode"
 	"github.com/rpcpool/yellowstone-faithful/iplddecoders"
 	"github.com/rpcpool/yellowstone-faithful/third_party/solana_proto/confirmed_block"
@@ -47,8 +46,6 @@ type c14SrvCase struct {
 	Fault   *c14chain.Fault `json:"fault,omitempty"`
 	Other   *c14chain.Spec  `json:"other,omitempty"`
 }
-
-var c14ZstdNoCRC, _ = zstd.NewWriter(nil, zstd.WithEncoderCRC(false), zstd.WithEncoderLevel(zstd.SpeedDefault))
 
 type c14SrvOutcome struct {
 	tx, meta []byte // what came back, normalised to bytes
@@ -192,6 +189,8 @@ func c14ShapeFor(rng *rand.Rand, seed int64, payload []byte, kmax int) c14chain.
 		s.Layout = "schema"
 	case r < 6:
 		s.Layout = "schema-head"
+	case r < 8:
+		s.Layout = "anytree"
 	default:
 		s.Layout = "tree"
 	}
@@ -223,7 +222,7 @@ func TestVerifC14Server(t *testing.T) {
 	dir := filepath.Join(ev.Scratch(), "c14srv")
 	os.MkdirAll(dir, 0o755)
 	defer os.RemoveAll(dir)
-	m, err := cargen.Generate(filepath.Join(dir, "m.car"), cargen.Opts{Epoch: 1, Seed: seed*31 + 14, NSlots: ev.Pick(30, 400), MaxEntries: 2, MaxTx: 4,
+	m, err := cargen.Generate(filepath.Join(dir, "m.car"), cargen.Opts{Epoch: 1, Seed: seed*31 + 14, NSlots: ev.Pick(80, 1000), MaxEntries: 2, MaxTx: 4,
 		BigOneIn: 4, TinyOneIn: 9, VoteOneIn: 4, FailOneIn: 4, V0OneIn: 3})
 	if err != nil {
 		t.Fatalf("c14: cargen: %v", err)
@@ -231,16 +230,20 @@ func TestVerifC14Server(t *testing.T) {
 	os.Remove(filepath.Join(dir, "m.car"))
 	var pls []c14Payloads
 	for i, tx := range m.AllTxs() {
-		pls = append(pls, c14Payloads{name: fmt.Sprintf("modeltx-%d", i), raw: tx.Raw, metaRaw: tx.MetaRaw, parseable: true})
+		mr := tx.MetaRaw
+		if i%3 == 1 {
+			mr = c14chain.FattenMeta(rng, mr, []int{300, 1000, 5000, 20000, 70000, 200000}[(i/3)%6])
+		}
+		pls = append(pls, c14Payloads{name: fmt.Sprintf("modeltx-%d", i), raw: tx.Raw, metaRaw: mr, parseable: true})
 	}
 	nModel := len(pls)
-	if lim := ev.Pick(90, 1500); nModel > lim {
+	if lim := ev.Pick(240, 3000); nModel > lim {
 		pls = pls[:lim]
 		nModel = lim
 	}
 	// arbitrary payloads for the byte-level entry point
 	sizes := []int{1, 2, 60, 127, 128, 1232, 16384, 65535, 65536, 204800}
-	nRand := ev.Pick(40, 600)
+	nRand := ev.Pick(80, 1000)
 	for i := 0; i < nRand; i++ {
 		var ld, lm int
 		if i < len(sizes) {
@@ -267,7 +270,7 @@ func TestVerifC14Server(t *testing.T) {
 		}
 		var metaZ []byte
 		if len(p.metaRaw) > 0 {
-			metaZ = c14ZstdNoCRC.EncodeAll(p.metaRaw, nil)
+			metaZ = c14chain.ZstdNoCRC(p.metaRaw)
 		}
 		cs := seed*1_000_003 + int64(pi)
 		ds := c14ShapeFor(rng, cs, p.raw, 60)
